@@ -486,6 +486,10 @@ fn amount_alphabet() -> Vec<Alt> {
         m("zero-dec", "0.00 USD"),
         m("small-dec", "0.001 USD"),
         m("million", "1,234,567.891 USD"),
+        m("twenty-digits", "10.000000000000000000 USD"),
+        m("grouped-twenty-digits", "25,000,000,000,000,000,000 USD"),
+        m("twenty-eight-digits", "1234567890123456789012345678 USD"),
+        m("twenty-eight-decimals", "0.1234567890123456789012345678 USD"),
         m("plain-million", "1234567 USD"),
         m("trailing-dot", "12. USD"),
         m("grouped-int", "12,345 USD"),
